@@ -584,6 +584,10 @@ func (db *DB) loadIndexFromDataFiles(fileIds []uint32, nonMergeFileId uint32) er
 				// 索引存放的 key 是真实 key
 				updateIndex(logRecord.Key, logRecord.Type, pos)
 			} else {
+				// 记录日志中出现过的最大批次 ID, 新批次的 ID 必须大于它
+				if batchID > db.seqNo {
+					db.seqNo = batchID
+				}
 				// 日志记录属于批处理的一部分
 				// 读取到带批处理完成标识的记录时再统一更新索引
 				if logRecord.Type == datafile.LogRecordBatchFinished {
